@@ -136,6 +136,17 @@ def check(ctx):
                   ("sv", "module m; initial x = f(%s) + g[%s] ? y : z; endmodule\n" % (",".join(terms), "+".join(terms))),
                   ("sv", "module m; always @(%s) x = 1; endmodule\n" % " or ".join(terms))]
     srcs += longs
+    # compiler directives standing in white space that is read more than once (behind a module header that is first tried as
+    # an ANSI header, behind an attribute instance each alternative re-reads), with little and with much text behind them:
+    # what a directive does to the tokens behind it must not depend on whether that white space came from the memo
+    dir_zoo = []
+    for d in ('`line 100 "gen.v" 0', "`timescale 1ns/1ps", "`default_nettype none", "`celldefine", '`begin_keywords "1800-2012"'):
+        for fill in (0, 70):
+            wires = "".join("wire t%d;\n" % j for j in range(fill))
+            dir_zoo.append(("sv", "module m(a, y);\n%s\nwire t;\n%sinput a; output y;\nendmodule\n" % (d, wires)))
+            dir_zoo.append(("sv", "module m;\n(* keep *)\n%s\nwire w;\n%swire v;\nendmodule\n" % (d, wires)))
+    srcs += dir_zoo if not q else dir_zoo[:8]
+    spec_set |= set(dir_zoo)
     c2, meta = [], {}
     for i, (k, s) in enumerate(srcs):
         small = (len(s) <= 120 or k == "pp") and (k, s) not in longs     # the long operands are exponential at tiny capacities
